@@ -144,6 +144,14 @@ func errText(id int, text string) string { return "E" + strconv.Itoa(id) + ":" +
 
 // errID extracts the call id from an error text produced by the service.
 func errID(s string) int {
+	const missing = "can't find service Svc.Missing"
+	if strings.HasPrefix(s, missing) {
+		n, err := strconv.Atoi(s[len(missing):])
+		if err != nil {
+			return 0
+		}
+		return n
+	}
 	if !strings.HasPrefix(s, "E") {
 		return 0
 	}
